@@ -18,6 +18,8 @@ pub struct PTok {
     pub in_anon: bool,
     /// inserted by the comment/directive pass (gaps touching it are fixed in re-layouts)
     pub inserted: bool,
+    /// exact blanks to put before this token in every layout (asm instruction lines)
+    pub fixed_gap: Option<String>,
 }
 
 #[derive(Clone, Debug, Default)]
@@ -97,6 +99,7 @@ impl<'a, 'b> B<'a, 'b> {
             depth: self.depth,
             in_anon: self.anon > 0,
             inserted: false,
+            fixed_gap: None,
         });
         self.next_line_start = false;
         idx
@@ -1164,6 +1167,40 @@ impl<'a, 'b> B<'a, 'b> {
         self.tag("type-section");
     }
 
+    /// `asm ... end` with "wild" instruction lines whose spacing must survive byte for byte.
+    fn asm_block(&mut self) {
+        const LINES: &[&str] = &[
+            "  MOV   EAX,  [EBX+4*ECX]", "push   ebp", "\tmov ebp,esp", "@loop:", "  dec ecx;  jnz @loop",
+            "  db $90,$90 ,$90", "  mov al, 'x'", "  // comment   in asm", "  call   SysInit.@InitExe",
+            "  XOR EAX,EAX   { clear }", "  mov   [eax].TFoo.Bar ,  1", "  ret    4", "    LEA  ECX,[EDX*2 + 0FFh]",
+        ];
+        self.tag("asm");
+        self.nl();
+        self.kw("asm");
+        let n = 1 + self.t.below(4);
+        let mut body = String::new();
+        for _ in 0..n {
+            body.push('\n');
+            if self.t.chance(1, 6) {
+                body.push('\n');
+            }
+            body.push_str(self.t.pick_str(LINES));
+        }
+        // tokenise the body in asm mode (prefix `asm` only to switch the scanner's mode)
+        let snippet = format!("asm{body}");
+        let toks = crate::model::refscan::scan(&snippet);
+        for tk in toks.iter().skip(1) {
+            if tk.kind == Kind::Eof {
+                break;
+            }
+            let idx = self.push(tk.text(&snippet), tk.kind) as usize;
+            self.p.toks[idx].fixed_gap = Some(snippet[tk.ws_start..tk.start].to_string());
+            self.p.toks[idx].inserted = true;
+        }
+        self.nl();
+        self.kw("end");
+    }
+
     fn routine(&mut self) {
         self.nl();
         let is_fn = self.t.chance(1, 2);
@@ -1200,6 +1237,12 @@ impl<'a, 'b> B<'a, 'b> {
             self.routine();
             self.depth -= 1;
             self.tag("nested-routine");
+        }
+        if self.opts.asm && self.t.chance(1, 3) {
+            self.asm_block();
+            self.op(";");
+            self.tag("routine");
+            return;
         }
         self.nl();
         let b = self.kw("begin");
